@@ -83,14 +83,15 @@ class Rendered(object):
                     emit("")
                     tagline(it["tags"], ind)
                     e = self._take("scenario")
-                    reg(e, emit(ind + "Scenario: S%d" % e["id"]))
+                    # prog["dupnames"]: all scenarios share one name (selection must go by location, never by name)
+                    reg(e, emit(ind + ("Scenario: S" if self.prog.get("dupnames") else "Scenario: S%d" % e["id"])))
                     for k, s in enumerate(it["steps"]):
                         emit(ind + "  Given " + _own_text(s["o"], k + 1))
                 else:
                     emit("")
                     tagline(list(it["tags"]) + (["x<c1>"] if it.get("ptag") else []), ind)
                     e = self._take("outline")
-                    reg(e, emit(ind + "Scenario Outline: O%d" % e["id"]))
+                    reg(e, emit(ind + ("Scenario Outline: O" if self.prog.get("dupnames") else "Scenario Outline: O%d" % e["id"])))
                     nst = len(it["blocks"][0]["rows"][0])
                     for k in range(nst):
                         emit(ind + "  Given <c%d>" % (k + 1))
